@@ -150,6 +150,16 @@ func genC19(t *rapid.T) C19Case {
 	if rapid.IntRange(0, 2).Draw(t, "withextra") != 0 {
 		c.Extra = rapid.SliceOfNDistinct(rapid.SampledFrom(c19ExtraKinds), 1, 4, rapid.ID[string]).Draw(t, "extra")
 	}
+	if c.LogHTTP == "errors" && len(c.CredPasses) > 0 && !c.DeadUpstream && rapid.Bool().Draw(t, "aimupgrade") {
+		// the one successful exchange whose status is not 2xx-4xx, in the mode that looks at the status
+		has := false
+		for _, k := range c.Extra {
+			has = has || k == "upgrade-101"
+		}
+		if !has {
+			c.Extra = append(c.Extra, "upgrade-101")
+		}
+	}
 	if rapid.Bool().Draw(t, "withfails") {
 		c.Fails = rapid.SliceOfNDistinct(rapid.SampledFrom(c19FailKinds), 1, 4, rapid.ID[string]).Draw(t, "fails")
 	}
